@@ -2,77 +2,118 @@ import Prom.Lemmas.C01Aux
 
 namespace Prom.C01
 open Prom Prom.Conc
-/-- an accepted float compare-exchange that succeeds: the cell held exactly the value the thread
-    had loaded, and the cell now holds that value plus the thread's own delta — the increment takes
-    effect exactly here, on the *current* value (nothing another thread added is overwritten) -/
-theorem cas_success_adds_delta (s s' : ASt) (e : Ev) (th : Th APc) (cur d : UInt64)
-    (hth : s.ths[e.tid]? = some th) (hpc : th.pc = some (.cas cur d)) (hok : e.ok = true)
-    (h : aStep s e = .ok s') :
-    s.mem = cur ∧ s'.mem = f64Add s.mem d := by
-  unfold aStep at h
-  simp only [hth, hpc] at h
+
+/-- states reachable by accepting items (call marks, atomic events with their results, return
+    marks) from the initial state of a program: any number of threads, any schedule, any number of
+    spurious compare-exchange failures -/
+inductive AReach (s0 : ASt) : ASt → Prop
+  | init : AReach s0 s0
+  | step {s s' it} : AReach s0 s → aItem s it = .ok s' → AReach s0 s'
+
+def aInit (float counter : Bool) (prog : List (List String)) : ASt :=
+  { float := float, counter := counter, ths := prog.map fun ops => { ops := ops } }
+
+theorem onceInv_init (float counter : Bool) (prog : List (List String)) : OnceInv (aInit float counter prog) := by
+  have key : ∀ (t : Nat) (th : Th APc), (aInit float counter prog).ths[t]? = some th → th.idx = 0 ∧ th.pc = none ∧ th.retv = none := by
+    intro t th h
+    simp only [aInit, List.getElem?_map] at h
+    cases hp : prog[t]? with
+    | none => simp [hp] at h
+    | some ops => simp [hp] at h; subst h; exact ⟨rfl, rfl, rfl⟩
+  refine ⟨?_, ?_, ?_⟩
+  · intro t th h hp; rw [(key t th h).2.1] at hp; cases hp
+  · intro t th h i
+    obtain ⟨h0, _, hr⟩ := key t th h
+    simp [commits, aInit, h0, hr]
+  · intro t th rv h hrv; rw [(key t th h).2.2] at hrv; cases hrv
+
+theorem onceInv_reach {float counter : Bool} {prog : List (List String)} {s : ASt}
+    (h : AReach (aInit float counter prog) s) : OnceInv s := by
+  induction h with
+  | init => exact onceInv_init _ _ _
+  | step _ hs ih => exact aItem_onceInv ih hs
+
+/-- **cell_linearizable** — for every accepted run of a counter or gauge cell: the cell holds the
+    value the *sequential specification* `specApply` reaches when the committed operations are run
+    one at a time in commit order, and every committed operation (a `get` in particular) returned
+    exactly what the specification returns at its place in that order. Each operation commits at a
+    step of its own call (its load / store / fetch_add / successful compare-exchange), so the order
+    is consistent with real time. In particular a value read concurrently is the result of a set of
+    increments that contains every increment completed before the read began (they committed
+    earlier) and none started after it returned (they commit later). -/
+theorem cell_linearizable {float counter : Bool} {prog : List (List String)} {s : ASt}
+    (h : AReach (aInit float counter prog) s) : specRun s.float 0 s.lin = some s.mem := by
+  induction h with
+  | init => simp [aInit, specRun]
+  | step _ hs ih => exact aItem_linInv ih hs
+
+/-- **exactly_once** — for every accepted run: a call that has returned took effect exactly once
+    (a local flush of an empty amount: not at all, as in the code), the call in progress took effect
+    at most once — exactly once as soon as its last step is done —, a call not yet started did not
+    take effect. No increment is lost, none is applied twice. -/
+theorem exactly_once {float counter : Bool} {prog : List (List String)} {s : ASt}
+    (h : AReach (aInit float counter prog) s) (t : Nat) (th : Th APc) (hth : s.ths[t]? = some th) (i : Nat) :
+    commits s.lin t i =
+      if i < th.idx then (if skipOp (th.ops.getD i "") then 0 else 1)
+      else if i = th.idx ∧ th.retv.isSome ∧ skipOp (th.ops.getD i "") = false then 1 else 0 :=
+  (onceInv_reach h).cnt t th hth i
+
+/-- the value a call returns is the one recorded with its commit (which `cell_linearizable` ties to
+    the specification) -/
+theorem returns_committed_value {float counter : Bool} {prog : List (List String)} {s : ASt}
+    (h : AReach (aInit float counter prog) s) (t : Nat) (th : Th APc) (rv : String)
+    (hth : s.ths[t]? = some th) (hrv : th.retv = some rv) (hsk : skipOp (th.ops.getD th.idx "") = false) :
+    (⟨t, th.idx, th.ops.getD th.idx "", rv⟩ : LinEv) ∈ s.lin :=
+  (onceInv_reach h).rvs t th rv hth hrv hsk
+
+/-- **commit_order_fixed** — the order in which operations took effect is never revised: every
+    accepted item leaves the commit log as it was or appends one operation -/
+theorem commit_order_fixed {s s' : ASt} {it : Item} (h : aItem s it = .ok s') : s.lin <+: s'.lin :=
+  aItem_lin_mono h
+
+/-- an accepted float compare-exchange that succeeds found exactly the value the thread had loaded
+    and replaces it by that value plus the thread's own delta: the increment takes effect on the
+    *current* value, nothing another thread added is overwritten -/
+theorem cas_success_adds_delta {float : Bool} {mem : UInt64} {op : String} {cur : UInt64} {e : Ev} {mem' : UInt64} {rv : String}
+    (h : aEv float mem op (.cas cur) e = .ok (mem', .inr rv)) :
+    mem = cur ∧ ∃ d, floatDelta op = some d ∧ mem' = f64Add mem d := by
+  unfold aEv at h
+  simp only at h
   split at h
   · cases h
   · split at h
-    · simp only [hok, if_true] at h
+    · cases h
+    · next d hd =>
+      rw [guard_ok] at h; obtain ⟨_, h⟩ := h
       split at h
-      · rename_i hc
+      · rw [guard_ok] at h; obtain ⟨hc, h⟩ := h
         simp only [Bool.and_eq_true, beq_iff_eq] at hc
-        simp only [Except.ok.injEq] at h
-        subst h
-        exact ⟨hc.1, by simp [hc.1]⟩
-      · cases h
-    · cases h
+        cases h
+        exact ⟨hc.1, d, hd, by rw [hc.1]⟩
+      · rw [guard_ok] at h; obtain ⟨_, h⟩ := h; cases h
 
-/-- an accepted failing compare-exchange (value changed or spurious) changes nothing and sends the
-    thread back to its load: a failed attempt has no effect, it is retried -/
-theorem cas_failure_no_effect (s s' : ASt) (e : Ev) (th : Th APc) (cur d : UInt64)
-    (hth : s.ths[e.tid]? = some th) (hpc : th.pc = some (.cas cur d)) (hok : e.ok = false)
-    (h : aStep s e = .ok s') :
-    s'.mem = s.mem ∧ s'.log = s.log := by
-  unfold aStep at h
-  simp only [hth, hpc] at h
-  split at h
-  · cases h
-  · split at h
-    · simp only [hok, Bool.false_eq_true, if_false] at h
-      split at h
-      · simp only [Except.ok.injEq] at h
-        subst h
-        exact ⟨rfl, rfl⟩
-      · cases h
-    · cases h
+/-- an accepted event that does not complete its call — the load of a float add, a failed
+    compare-exchange (value changed, or spurious) — changes nothing: a failed attempt has no effect,
+    it is retried -/
+theorem cas_failure_no_effect {float : Bool} {mem : UInt64} {op : String} {pc : APc} {e : Ev} {mem' : UInt64} {pc' : APc}
+    (h : aEv float mem op pc e = .ok (mem', .inl pc')) : mem' = mem :=
+  aEv_continue h
 
-/-- a `get` returns the value the cell holds at its (single) load -/
-theorem get_returns_cell (s s' : ASt) (e : Ev) (th : Th APc) (op : String) (hn : opName op = "get")
-    (hth : s.ths[e.tid]? = some th) (hpc : th.pc = some (.start op)) (h : aStep s e = .ok s') :
-    s'.mem = s.mem ∧ ∃ th', s'.ths[e.tid]? = some th' ∧ th'.retv = some (hexStr s.mem) := by
-  unfold aStep at h
-  simp only [hth, hpc] at h
-  split at h
-  · cases h
-  · simp only [hn, beq_self_eq_true, if_true] at h
-    split at h
-    · simp only [Except.ok.injEq] at h
-      subst h
-      refine ⟨rfl, ?_⟩
-      have hlt : e.tid < s.ths.length := by
-        rcases Nat.lt_or_ge e.tid s.ths.length with h' | h'
-        · exact h'
-        · rw [List.getElem?_eq_none_iff.2 h'] at hth; cases hth
-      exact ⟨{ th with pc := none, retv := some (hexStr s.mem) }, by simp [hlt], rfl⟩
-    · cases h
+/-- reads never go backwards by themselves: between two commits the value only changes by a
+    committed operation; for the integer counter every committed `inc`/`inc_by` adds its (unsigned)
+    operand, so with no `reset` in between and no wrap-around a later `get` returns a value at least
+    as large -/
+theorem int_inc_monotone (v : UInt64) (op : String) (hn : isSubOp op = false)
+    (hg : (opName op == "get") = false) (hs : (opName op == "set" || opName op == "reset") = false)
+    (hov : v.toNat + (intDelta op).toNat < 2 ^ 64) :
+    ∃ v', specApply false v op = some (v', "") ∧ v ≤ v' := by
+  refine ⟨v + intDelta op, by simp [specApply, hg, hs, hn], ?_⟩
+  rw [UInt64.le_iff_toNat_le, UInt64.toNat_add]
+  rw [Nat.mod_eq_of_lt hov]
+  omega
 
-/-- **lin_inv** — for every accepted run (any threads, programs, schedule): the cell holds the value
-    written by the latest committed write -/
-theorem lin_inv (items : List Item) : ∀ (s s' : ASt) (n : Nat), LogInv s → runItems aItem s items n = .ok s' → LogInv s' := by
-  induction items with
-  | nil => intro s s' n hi h; simp [runItems] at h; subst h; exact hi
-  | cons it r ih =>
-    intro s s' n hi h
-    simp only [runItems] at h
-    cases hs : aItem s it with
-    | error e => rw [hs] at h; cases h
-    | ok s1 => rw [hs] at h; exact ih s1 s' (n + 1) (aItem_logInv s s1 it hi hs) h
+/-- non-vacuity: the initial state of a two-thread program is reachable (and the invariants hold of it) -/
+example : AReach (aInit false true [["inc"], ["get"]]) (aInit false true [["inc"], ["get"]]) ∧
+    OnceInv (aInit false true [["inc"], ["get"]]) := ⟨.init, onceInv_init _ _ _⟩
 
 end Prom.C01
